@@ -16,9 +16,11 @@ A case is a JSON-able dict:
     msleep  {task index: seconds}   sleep inside the task function (how the master is made slow)
     boom    list of task indices whose task function raises ValueError
     logs    bool            every task emits one log record
+    rsize   int             every result carries a payload of that many bytes (results larger than the 64 KiB pipe buffer)
     summary bool            large runs: order/values are checked in the caller, only a summary comes back
     watchdog float          watchdog time of this case (default: the global one)
-The outcome is a dict {out: 'done'|'error'|'timeout', res, etype, msg, wall, nlog}.
+The outcome is a dict {out: 'done'|'error'|'timeout'|'died', res, etype, mro, msg, wall, nlog, alive (child processes
+still alive 1 s after the call), kw_changed (tasks whose caller-side kwargs dict was altered), arrival (pid order)}.
 """
 import json
 import os
@@ -32,8 +34,8 @@ WATCHDOG_S = float(os.environ.get('VERIF_C09_WATCHDOG', '10'))
 CONCURRENCY = int(os.environ.get('VERIF_C09_JOBS', '10'))
 
 
-def task_func(i, k=0, sleep=0.0, boom=False, log=False, rss=None, tl=None):
-    """The mapped function: returns (task number, a pure function of the arguments, os pid, a draw)."""
+def task_func(i, k=0, sleep=0.0, boom=False, log=False, rsize=0, rss=None, tl=None):
+    """The mapped function: returns (task number, a pure function of the arguments, os pid, a draw[, payload])."""
     if sleep:
         time.sleep(sleep)
     if boom:
@@ -42,7 +44,24 @@ def task_func(i, k=0, sleep=0.0, boom=False, log=False, rss=None, tl=None):
         import logging
         logging.getLogger('skyllh.verif.c09').warning('task %d', i)
     draw = None if rss is None else int(rss.random.randint(0, 2**31 - 1))
+    if rsize:
+        return (i, i * i + k, os.getpid(), draw, bytes([i % 251]) * int(rsize))
     return (i, i * i + k, os.getpid(), draw)
+
+
+def _strip(r):
+    """result tuple without the payload (replaced by its length and a check of its content)"""
+    if isinstance(r, (tuple, list)):
+        r = tuple(r)
+        if len(r) == 5 and isinstance(r[4], (bytes, bytearray)):
+            ok = r[4] == bytes([r[0] % 251]) * len(r[4]) if isinstance(r[0], int) else False
+            return r[:4] + ((len(r[4]) if ok else -1),)
+        return r
+    return repr(r)
+
+
+def _kw_snapshot(args_list):
+    return [(tuple(a), sorted(kw.keys()), [id(kw[k]) for k in sorted(kw.keys())]) for a, kw in args_list]
 
 
 def _stub_analysis():
@@ -88,12 +107,15 @@ def _child_main(case, wfd):
             lg.removeHandler(h)
         lg.addHandler(H())
         lg.setLevel(logging.WARNING)
+        logging.getLogger('skyllh.core.multiproc').setLevel(logging.WARNING)
         from skyllh.core.random import RandomStateService
         if case.get('interactive'):
             from skyllh.core import session
             session.enable_interactive_session()
             os.dup2(devnull, 1)     # progress bar output
         rss = None if case.get('seed') is None else RandomStateService(int(case['seed']))
+        logging.getLogger('skyllh.core.multiproc').setLevel(logging.DEBUG)   # arrival order of the results (diagnostic)
+        extra = {}
         try:
             if case.get('api', 'parallelize') == 'do_trials':
                 ana = _stub_analysis()
@@ -101,42 +123,63 @@ def _child_main(case, wfd):
                 res = [tuple(int(x) for x in row) for row in rec.tolist()]
             elif case.get('api') == 'repeat':
                 # the same args_list object handed to parallelize several times, each time with a fresh
-                # RandomStateService of the listed seed; reference = a call on a newly built args_list
+                # RandomStateService of the listed seed (None: no rss); reference = a call on a newly built args_list
                 from skyllh.core.multiproc import parallelize
 
                 def build():
                     return [((i,), {'k': 3 * i}) for i in range(case['n'])]
                 shared = build()
-                res, ref = [], []
+                snap0 = _kw_snapshot(shared)
+                res, ref, changed = [], [], []
                 for sd in case['seeds']:
                     tl = None
-                    if case.get('tl'):
+                    if case.get('tl') and sd is not None:
                         from skyllh.core.timing import TimeLord
                         tl = TimeLord()
-                    r = parallelize(task_func, shared, case['ncpu'], rss=RandomStateService(int(sd)), tl=tl)
-                    res.append([tuple(x) for x in r])
-                    r = parallelize(task_func, build(), case['ncpu'], rss=RandomStateService(int(sd)))
-                    ref.append([tuple(x) for x in r])
-                out = {'out': 'done', 'res': res, 'ref': ref, 'nlog': len(recs)}
-                data = pickle.dumps(out)
-                os.write(wfd, struct.pack('<I', len(data)) + data)
-                return
+                    r = parallelize(task_func, shared, case['ncpu'], rss=None if sd is None else RandomStateService(int(sd)), tl=tl)
+                    res.append([_strip(x) for x in r])
+                    changed.append([i for i, (x, y) in enumerate(zip(snap0, _kw_snapshot(shared))) if x != y][:4])
+                    r = parallelize(task_func, build(), case['ncpu'], rss=None if sd is None else RandomStateService(int(sd)))
+                    ref.append([_strip(x) for x in r])
+                extra = {'ref': ref, 'kw_changed': changed}
             else:
                 from skyllh.core.multiproc import parallelize
                 msleep = {int(k): v for k, v in (case.get('msleep') or {}).items()}
                 boom = set(case.get('boom') or [])
                 args_list = [((i,), {'k': 3 * i, 'sleep': msleep.get(i, 0.0), 'boom': i in boom,
-                                      'log': bool(case.get('logs'))}) for i in range(case['n'])]
-                res = parallelize(task_func, args_list, case['ncpu'], rss=rss)
-                res = [tuple(r) if isinstance(r, (tuple, list)) else repr(r) for r in res]
+                                      'log': bool(case.get('logs')), 'rsize': int(case.get('rsize') or 0)})
+                             for i in range(case['n'])]
+                snap0 = _kw_snapshot(args_list)
+                try:
+                    res = parallelize(task_func, args_list, case['ncpu'], rss=rss)
+                finally:
+                    extra = {'kw_changed': [i for i, (x, y) in enumerate(zip(snap0, _kw_snapshot(args_list))) if x != y][:4]}
+                res = [_strip(r) for r in res]
             if case.get('summary'):
                 # large runs: check order and values here, send back a summary only
                 bad = [i for i, r in enumerate(res) if not (isinstance(r, tuple) and len(r) == 4 and r[0] == i and r[1] == i * i + 3 * i)][:3]
-                out = {'out': 'done', 'res_len': len(res), 'res_bad': bad, 'nlog': len(recs)}
+                out = {'out': 'done', 'res_len': len(res), 'res_bad': bad}
             else:
-                out = {'out': 'done', 'res': res, 'nlog': len(recs), 'logmsgs': recs[:64]}
+                out = {'out': 'done', 'res': res, 'logmsgs': [m for m in recs if m.startswith('task ')][:64]}
         except BaseException as e:  # noqa  (also SystemExit/KeyboardInterrupt: anything that leaves the call)
-            out = {'out': 'error', 'etype': type(e).__name__, 'msg': str(e)[:200], 'nlog': len(recs)}
+            out = {'out': 'error', 'etype': type(e).__name__, 'mro': [c.__name__ for c in type(e).__mro__], 'msg': str(e)[:200]}
+        out.update(extra)
+        out['nlog'] = len([m for m in recs if m.startswith('task ')])
+        # diagnostic: order in which the results of the children arrived (from the debug records of the gather loop)
+        arr = []
+        for m in recs:
+            if m.startswith('Beginning of worker process (pid='):
+                try:
+                    arr.append(int(m.split('pid=')[1].split(')')[0]))
+                except ValueError:
+                    pass
+        out['arrival'] = arr
+        # are the child processes gone once the call has returned / raised?  (grace period 1 s)
+        import multiprocessing as mp
+        t_end = time.time() + 1.0
+        while mp.active_children() and time.time() < t_end:
+            time.sleep(0.01)
+        out['alive'] = len(mp.active_children())
         data = pickle.dumps(out)
         os.write(wfd, struct.pack('<I', len(data)) + data)
     finally:
@@ -227,7 +270,7 @@ def run_cases(cases, timeout=None, jobs=None, stop=None, on_result=None):
             if complete:
                 out = pickle.loads(buf[4:4 + struct.unpack('<I', buf[:4])[0]])
             else:
-                out = {'out': 'error', 'etype': 'CallerDied', 'msg': 'the calling process died without an outcome'}
+                out = {'out': 'died', 'msg': 'the calling process died without an outcome'}
             out['wall'] = round(now - t0, 3)
             outcomes[idx] = out
             if on_result is not None:
